@@ -78,6 +78,8 @@ pub enum Via {
     /// scripts/action-run.sh with INPUT_* variables; `sep` separates mutator names, `truthy` is the
     /// spelling used for enabled flags
     Wrapper { sep: String, truthy: String },
+    /// scripts/action-run.sh with the raw `args` input (INPUT_ARGS), which it word-splits and passes on
+    WrapperArgs,
 }
 
 #[derive(Clone, Debug, PartialEq, Serialize, Deserialize)]
@@ -94,6 +96,9 @@ pub struct CliCase {
     pub mode: Mode,
     pub rayon_threads: u8,
     pub via: Via,
+    /// use the documented short options -p / -d / -s
+    #[serde(default)]
+    pub short_opts: bool,
 }
 
 fn mutk_by_name(n: &str) -> Option<MutK> {
@@ -160,7 +165,7 @@ impl CliCase {
     fn common_args(&self) -> Vec<String> {
         let mut a: Vec<String> = vec![];
         if let Some(p) = self.protocol {
-            a.extend(["--protocol".into(), p.to_string()]);
+            a.extend([if self.short_opts { "-p".to_string() } else { "--protocol".to_string() }, p.to_string()]);
         }
         if let Some(s) = self.seed {
             a.extend(["--seed".into(), s.to_string()]);
@@ -210,7 +215,7 @@ impl CliCase {
             self.allow_ext,
             self.allow_buffer,
             matches!(self.mode, Mode::Batch { .. }),
-            matches!(self.via, Via::Wrapper { .. }),
+            !matches!(self.via, Via::Cli),
         ]
         .iter()
         .filter(|x| **x)
@@ -247,10 +252,38 @@ pub fn invoke(ctx: &Ctx, cli: &str, c: &CliCase, dir: &str) -> Result<RunOut, St
                     cmd.arg(&outfile);
                 }
                 Mode::Batch { samples, .. } => {
-                    cmd.args(["--dir", &outdir, "--samples", &samples.to_string()]);
+                    if c.short_opts {
+                        cmd.args(["-d", &outdir, "-s", &samples.to_string()]);
+                    } else {
+                        cmd.args(["--dir", &outdir, "--samples", &samples.to_string()]);
+                    }
                     cmd.args(c.common_args());
                 }
             }
+        }
+        Via::WrapperArgs => {
+            cmd = Command::new("bash");
+            cmd.arg(format!("{}/scripts/action-run.sh", ctx.repo_dir));
+            for (k, _) in std::env::vars() {
+                if k.starts_with("INPUT_") {
+                    cmd.env_remove(k);
+                }
+            }
+            let bindir = std::path::Path::new(cli).parent().unwrap().to_string_lossy().to_string();
+            cmd.env("PATH", format!("{}:{}", bindir, std::env::var("PATH").unwrap_or_default()));
+            let mut a = c.common_args();
+            match &c.mode {
+                Mode::Single => {
+                    a.push("--".into());
+                    a.push(outfile.clone());
+                }
+                Mode::Batch { samples, .. } => {
+                    let mut b = vec!["--dir".to_string(), outdir.clone(), "--samples".to_string(), samples.to_string()];
+                    b.extend(a);
+                    a = b;
+                }
+            }
+            cmd.env("INPUT_ARGS", a.join(" "));
         }
         Via::Wrapper { sep, truthy } => {
             cmd = Command::new("bash");
@@ -307,7 +340,11 @@ pub fn check_cli(ctx: &Ctx, cli: &str, c: &CliCase, idx: usize, st: &mut Stats) 
     let res = invoke(ctx, cli, c, &dir);
     let r = (|| -> Result<(), Fail> {
         let ro = res.map_err(|e| Fail::new("harness:invoke", e))?;
-        let via = if matches!(c.via, Via::Cli) { "cli" } else { "wrapper" };
+        let via = match c.via {
+            Via::Cli => "cli",
+            Via::Wrapper { .. } => "wrapper",
+            Via::WrapperArgs => "wrapper-args",
+        };
         st.label(&format!("via={}", via));
         let accept = c.acceptable();
         match &c.mode {
@@ -424,6 +461,7 @@ pub fn cli_strategy(wrapper: bool) -> BoxedStrategy<CliCase> {
         1 => Just(Some("1.0".to_string())),
         1 => Just(Some("0.5".to_string())),
         1 => Just(Some("2".to_string())),
+        1 => proptest::sample::select(vec!["nan", "NaN", "inf", "1e-9", "0.999999", "1e3"]).prop_map(|x| Some(x.to_string())),
         1 => (0u32..1000).prop_map(|x| Some(format!("0.{:03}", x))),
     ];
     let mode = prop_oneof![
@@ -432,20 +470,23 @@ pub fn cli_strategy(wrapper: bool) -> BoxedStrategy<CliCase> {
         1 => (1usize..12, 0usize..12).prop_map(|(n, k)| Mode::Batch { samples: n, fault_at: Some(k % n) }),
     ];
     let via = if wrapper {
-        (
-            proptest::sample::select(vec![",".to_string(), " ".to_string(), ", ".to_string()]),
-            proptest::sample::select(vec!["true".to_string(), "TRUE".into(), "True".into(), "1".into(), "yes".into(), "YES".into(), "Yes".into()]),
-        )
-            .prop_map(|(sep, truthy)| Via::Wrapper { sep, truthy })
-            .boxed()
+        prop_oneof![
+            5 => (
+                proptest::sample::select(vec![",".to_string(), " ".to_string(), ", ".to_string()]),
+                proptest::sample::select(vec!["true".to_string(), "TRUE".into(), "True".into(), "1".into(), "yes".into(), "YES".into(), "Yes".into()]),
+            )
+                .prop_map(|(sep, truthy)| Via::Wrapper { sep, truthy }),
+            1 => Just(Via::WrapperArgs),
+        ]
+        .boxed()
     } else {
         Just(Via::Cli).boxed()
     };
     (
         (proptest::option::weighted(0.6, 0u8..6), proptest::option::weighted(0.9, any::<u64>()), range, names),
-        (rate, any::<bool>(), any::<bool>(), any::<bool>(), mode, proptest::sample::select(vec![1u8, 2, 5, 16]), via),
+        (rate, any::<bool>(), any::<bool>(), any::<bool>(), mode, proptest::sample::select(vec![1u8, 2, 5, 16]), via, proptest::bool::weighted(0.3)),
     )
-        .prop_map(|((protocol, seed, (min, max), mutators), (rate, u, e, b, mode, rayon_threads, via))| CliCase {
+        .prop_map(|((protocol, seed, (min, max), mutators), (rate, u, e, b, mode, rayon_threads, via, short_opts))| CliCase {
             protocol,
             seed,
             min,
@@ -458,6 +499,7 @@ pub fn cli_strategy(wrapper: bool) -> BoxedStrategy<CliCase> {
             mode,
             rayon_threads,
             via,
+            short_opts,
         })
         .boxed()
 }
